@@ -116,6 +116,21 @@ type c01xpObs struct {
 	harness string
 }
 
+func (o *c01xpObs) summary() string {
+	lens := func(c *vfake.Conn) []int {
+		var l []int
+		for _, w := range c.Writes {
+			l = append(l, len(w))
+		}
+		return l
+	}
+	s := fmt.Sprintf("observed: downstream Write calls %v (closed %v)", lens(o.down), o.down.IsClosed())
+	for i, u := range o.ups {
+		s += fmt.Sprintf("; upstream connection %d Write calls %v (closed %v)", i, lens(u), u.IsClosed())
+	}
+	return s + fmt.Sprintf("; ids read from the forwarded requests %v", o.upIDs)
+}
+
 func c01xpBody(cd *c01xpCodec, listener string, steps []c01xpStep, obs *c01xpObs) {
 	c01xpInit()
 	vfake.Reset()
@@ -195,9 +210,24 @@ func c01xpBody(cd *c01xpCodec, listener string, steps []c01xpStep, obs *c01xpObs
 	}
 
 	vrt.GoNamed("env:down-client", func() {
+		upWrites := func() int {
+			n := 0
+			for _, u := range obs.ups {
+				n += len(u.Writes)
+			}
+			return n
+		}
 		for i := range steps {
+			dn, un := len(down.Writes), upWrites()
 			down.InjectRead(steps[i].req(steps[i].downID))
-			// the next request only once this exchange is over and the proxy went idle
+			// the next request only once this exchange is over (the first request of a
+			// connection waits in virtual time for the upstream connect) ...
+			if steps[i].role == vc01sl.Oneway {
+				vrt.WaitUntil("client: one-way request forwarded", func() bool { return upWrites() > un || down.IsClosed() })
+			} else {
+				vrt.WaitUntil("client: answer to the request", func() bool { return len(down.Writes) > dn || down.IsClosed() })
+			}
+			// ... and the proxy went idle (it releases a request's buffers after it wrote the response)
 			vrt.QuiesceNoTimers()
 			if down.IsClosed() {
 				return
@@ -375,6 +405,7 @@ func c01xpCheck(p *vreport.Part, cd *c01xpCodec, c vc01.Case) {
 		}
 	}
 	var f *c01xpFinding
+	lastSummary := ""
 	for t := 0; t < tries && f == nil; t++ {
 		obs := &c01xpObs{}
 		var res *vrt.Result
@@ -404,11 +435,13 @@ func c01xpCheck(p *vreport.Part, cd *c01xpCodec, c vc01.Case) {
 		if f == nil {
 			f = c01xpJudge(cd, c, dirs, steps, obs)
 		}
+		lastSummary = obs.summary()
 	}
 	if f == nil {
 		p.Outcome(role + ":forwarded-identical")
 		return
 	}
+	f.detail += " | " + lastSummary
 	p.Outcome(f.res)
 	p.Violation(c01xpKey(sp, c, f.dir, f.res), f.detail, c)
 }
